@@ -96,6 +96,7 @@ type planCase struct {
 	desc    string
 	spec    *spec  // generated schema cases: where the hot strings are
 	label   string // synthetic plans: the shape
+	noModel bool   // oracle only (the extracted scanner is quadratic in the statement length)
 }
 
 // effective delimiter the reader will use / the writer writes
@@ -268,7 +269,11 @@ func runPlanCase(w *out.W, tmp string, c *planCase) {
 			toks = append(toks, hx(r))
 		}
 	}
-	w.Case(c.id, strings.Join(toks, " "), obs)
+	if c.noModel {
+		w.ImplOnly(c.id, c.desc)
+	} else {
+		w.Case(c.id, strings.Join(toks, " "), obs)
+	}
 
 	// ---- oracle: the statements read back are exactly the planned commands
 	want := make([]string, len(p.Changes))
@@ -440,6 +445,13 @@ func triggerClass(c *planCase) string {
 				return "mysql-enum-value-quote"
 			case (f.role == "tcomment" || f.role == "ccomment" || f.role == "icomment") && !c.fm.dialSc && strings.Contains(v, `"`):
 				return "mysql-dquote-literal-generic-scanner"
+			}
+		}
+	}
+	if c.fm.name == "goose" || c.fm.name == "dbmate" {
+		for _, ch := range p.Changes {
+			if !shortLines(toolComment(ch.Comment) + ch.Cmd + ";\n") {
+				return "sqltool-long-line"
 			}
 		}
 	}
